@@ -62,7 +62,7 @@ def design_check(ctx, notes):
         runs += [(os.path.join(d, "Fixed2.cfg"), None)]
     else:
         runs += [("GltfAnimWriterFixed.cfg", None)]
-        deep = dict(MeshIds={1, 2, 3, 5, 6}, SkelIds={1, 3, 4, 6, 9}, AnimKinds={0, 2, 4, 10}, TrsKinds={0}, MaxModels=3, MaxLights=1, **FIXED)
+        deep = dict(MeshIds={1, 2, 3, 5, 6}, SkelIds={1, 4, 6, 9}, AnimKinds={0, 4, 10}, TrsKinds={0}, MaxModels=3, MaxLights=1, **FIXED)
         _cfg(os.path.join(d, "DeepFixed.cfg"), deep, ["L2All"])
         runs += [(os.path.join(d, "DeepFixed.cfg"), None)]
 
@@ -107,10 +107,10 @@ def generator_plan(tier):
         ]
     return [
         ("shapes", dict(MeshIds={2, 3, 4, 5}, SkelIds=ALL_SK, AnimKinds=ALL_AN, TrsKinds={0, 1}, MaxModels=1, MaxLights=1), None),
-        ("pairs", dict(MeshIds={1, 2, 3, 4, 6}, SkelIds={1, 2, 6, 8}, AnimKinds={0, 1, 3, 5, 8}, TrsKinds={0}, MaxModels=2, MaxLights=1), None),
+        ("pairs", dict(MeshIds={1, 2, 4, 6}, SkelIds={2, 6, 8}, AnimKinds={0, 3, 5, 8}, TrsKinds={0}, MaxModels=2, MaxLights=1), None),
         ("triples", dict(MeshIds={1, 2, 6}, SkelIds={2, 4}, AnimKinds={0, 3, 6}, TrsKinds={0}, MaxModels=3, MaxLights=0), None),
         ("walks", dict(MeshIds={1, 2, 3, 4, 5, 6}, SkelIds=ALL_SK, AnimKinds=ALL_AN, TrsKinds={0, 1}, MaxModels=5, MaxLights=2),
-         dict(num=2500, depth=8)),
+         dict(num=1000, depth=8)),
     ]
 
 
@@ -163,7 +163,7 @@ def generate_cases(ctx, notes):
 
 def random_cases(ctx, vh, notes):
     d = ctx.scratch("rnd")
-    n, maxv, maxj, maxf = (240, 10, 8, 8) if ctx.tier == "quick" else (6000, 24, 14, 30)
+    n, maxv, maxj, maxf = (240, 10, 8, 8) if ctx.tier == "quick" else (3000, 24, 14, 30)
     p = os.path.join(d, "r.ndjson")
     core.run_vh(vh, ["xanim-random", "-out", p, "-seed", str(ctx.seed), "-n", str(n), "-maxv", str(maxv), "-maxj", str(maxj),
                      "-maxf", str(maxf)])
@@ -284,9 +284,29 @@ def confirm(ctx, vh, findings):
 # binding self-test: corrupt one logged field of an accepted line, TLC must reject it
 # --------------------------------------------------------------------------
 
+def _resum(a):
+    """keep the harness summaries of a corrupted accessor consistent: the self-test is about the property predicates,
+    Harness.Decode (GltfDoc!SumConsistent) would stop the judge before them"""
+    def key(b):
+        if a["comp"] != 5126:
+            return b
+        return b if b >= 0 else -(b + 2147483647) - 1
+
+    def is_nan(b):
+        return a["comp"] == 5126 and (b & 0x7F800000) == 0x7F800000 and (b & 0x007FFFFF) != 0
+    nc = len(a["vals"][0])
+    clean = [row for row in a["vals"] if not any(is_nan(b) for b in row)]
+    a["sum"]["enan"] = len(a["vals"]) - len(clean)
+    for c in range(nc):
+        good = [row[c] for row in a["vals"] if not is_nan(row[c])]
+        a["sum"]["nan"][c] = len(a["vals"]) - len(good)
+        a["sum"]["min"][c] = min(good, key=key) if good else 0
+        a["sum"]["max"][c] = max(good, key=key) if good else 0
+        a["sum"]["emin"][c] = min((r[c] for r in clean), key=key) if clean else 0
+        a["sum"]["emax"][c] = max((r[c] for r in clean), key=key) if clean else 0
+
+
 def _corruptions():
-    def skinned(ln):
-        return ln["xo"]["skins"] and ln["out"]["status"] == "OK"
 
     def joint_ref(ln):          # skin.joints names another node
         for s in ln["xo"]["skins"]:
@@ -295,19 +315,26 @@ def _corruptions():
                 return True
         return False
 
-    def ibm_count(ln):
+    def ibm_count(ln):          # one matrix more than the skin has joints
         for s in ln["xo"]["skins"]:
             if len(s["joints"]) >= 2 and s["ibm"] >= 0:
-                a = ln["out"]["accs"][s["ibm"]]
-                a["count"] -= 1
-                a["vals"] = a["vals"][:-1]
+                s["joints"] = s["joints"][:-1]
                 return True
         return False
 
     def ibm_value(ln):          # one component of a stored inverse bind matrix
         for s in ln["xo"]["skins"]:
             if s["ibm"] >= 0 and ln["out"]["accs"][s["ibm"]]["full"]:
-                ln["out"]["accs"][s["ibm"]]["vals"][0][12] ^= 1 << 22
+                a = ln["out"]["accs"][s["ibm"]]
+                a["vals"][0][12] ^= 1 << 22
+                _resum(a)
+                return True
+        return False
+
+    def ibm_source(ln):         # one component of Skeleton.InverseBindMatrix on the source side
+        for m, sm in zip(ln["xs"]["models"], ln["src"]["models"]):
+            if m["skel"] and not sm["empty"]:
+                ln["xs"]["skels"][m["skel"] - 1]["ibm"][0][13] ^= 1 << 22
                 return True
         return False
 
@@ -351,12 +378,7 @@ def _corruptions():
                     if at["sem"] == "JOINTS_0":
                         a = o["accs"][at["acc"]]
                         a["vals"][0][0] = nj
-                        a["sum"]["max"][0] = max(a["sum"]["max"][0], nj)
-                        a["sum"]["emax"][0] = a["sum"]["max"][0]
-                        for m in ln["src"]["meshes"]:       # keep the C06 layer quiet: same value on the source side
-                            for sa in m["attrs"]:
-                                if sa["name"] == "Joint" and len(sa["idata"]) == a["count"]:
-                                    pass
+                        _resum(a)
                         return True
         return False
 
@@ -370,6 +392,7 @@ def _corruptions():
                         for r in a["vals"]:
                             if r[0] == 1065353216:
                                 r[0] = 1056964608      # 1.0 -> 0.5
+                                _resum(a)
                                 return True
         return False
 
@@ -408,12 +431,13 @@ def _corruptions():
             acc = ln["out"]["accs"][a["samplers"][a["channels"][0]["sampler"]]["input"]]
             if acc["full"] and acc["count"] >= 3:
                 acc["vals"][1][0] = acc["vals"][2][0]
+                _resum(acc)
                 return True
         return False
 
     def time_value(ln):         # a key time of the SOURCE
-        for m in ln["xs"]["models"]:
-            for q in m["anims"]:
+        for m, sm in zip(ln["xs"]["models"], ln["src"]["models"]):
+            for q in ([] if sm["empty"] else m["anims"]):
                 if len(q["t"]) >= 3:
                     q["t"][1] += 1
                     return True
@@ -424,6 +448,7 @@ def _corruptions():
             acc = ln["out"]["accs"][a["samplers"][a["channels"][0]["sampler"]]["output"]]
             if acc["full"] and acc["count"] >= 3:
                 acc["vals"][1][1] ^= 1
+                _resum(acc)
                 return True
         return False
 
@@ -433,6 +458,7 @@ def _corruptions():
             if acc["full"] and acc["count"] >= 2:
                 acc["count"] -= 1
                 acc["vals"] = acc["vals"][:-1]
+                _resum(acc)
                 return True
         return False
 
@@ -461,8 +487,9 @@ def _corruptions():
 
     return [
         ("skin.joints entry", joint_ref, {"X07.SkinMirrors", "X07.JointTRS"}),
-        ("inverse bind accessor count", ibm_count, {"X07.SkinMatrices"}),
+        ("number of joints against the inverse bind accessor count", ibm_count, {"X07.SkinMatrices"}),
         ("stored inverse bind matrix", ibm_value, {"X07.InverseBind"}),
+        ("source inverse bind matrix", ibm_source, {"X07.InverseBind"}),
         ("lattice image of an inverse bind matrix", ibm_lattice, {"X07.BindPose"}),
         ("children of a joint node", child, {"X07.SkinMirrors"}),
         ("node.skin", node_skin, {"X07.SkinAttached"}),
@@ -496,9 +523,13 @@ def self_test(ctx, vh, notes):
     if len(accepted) < 40:
         raise core.Infra("self-test: only %d accepted lines to corrupt" % len(accepted))
     lines, expect = [], []
-    for what, fn, preds in _corruptions():
+    cors = _corruptions()
+    last = cors[-1][1]
+    for what, fn, preds in cors:
         done = False
         for ln in accepted:
+            if (ln["out"]["status"] == "OK") != (fn is not last):
+                continue        # only the last corruption is about a refused scene; the others need a judged file
             c = copy.deepcopy(ln)
             if fn(c):
                 lines.append(json.dumps(c, separators=(",", ":")) + "\n")
